@@ -3,6 +3,7 @@ SPECIFICATION Spec
 CONSTANTS
   Wnd = 3
   Variant = "fixed"
+  LastSlot = "pendingAck"
   MaxSdu = 3
   SegChoices = {1, 2, 3}
   MaxSeq = 12
